@@ -28,6 +28,16 @@ Depth(t) == CASE t.k = "leaf" -> 0
 LeafData(i, len, high) == [j \in 1..len |-> ((i * 16 + j) % 120) + 1 + (IF high THEN 128 ELSE 0)]
 
 \* "chainn": a left-nested Chain of one-byte slices (many chunks with real chunks_vectored)
+\* chunk lengths of a leaf as the real object presents them (used by BufTree.tla):
+\* single-chunk types: <<len>>; deque: (s1, s2) split at cut; chunked: with empty chunks
+\* in between (cut = 1) or around (cut = 2); chainn: one-byte chunks
+ChunkLens(ty, len, cut) ==
+  CASE ty \in {"slice", "bytes", "bytesmut", "cursor"} -> <<len>>
+    [] ty = "deque" -> IF cut = 0 THEN <<len, 0>> ELSE <<cut, len - cut>>
+    [] ty = "chunked" -> IF cut = 0 THEN <<len>> ELSE IF cut = 1 THEN <<1, 0, len - 1>> ELSE <<0, 2, len - 2, 0>>
+    [] ty = "chainn" -> [i \in 1..len |-> 1]
+    [] OTHER -> <<len>>
+
 BufLeafTypes == {"slice", "bytes", "bytesmut", "cursor", "deque", "chunked", "chainn"}
 SinkLeafTypes == {"vec", "bytesmut", "slice", "uninit"}
 
@@ -39,7 +49,9 @@ PushLeaf ==
      THEN \E ty \in BufLeafTypes \cap LeafTypes, len \in LeafLens, high \in BOOLEAN, cut \in 0..2 :
             /\ cut <= len
             /\ (ty \notin {"deque", "chunked", "cursor"} => cut = 0)
-            /\ stack' = Append(stack, [k |-> "leaf", ty |-> ty, limit |-> 0, d |-> LeafData(nleaf, len, high), cut |-> cut])
+            /\ (ty = "chunked" /\ cut > 0 => len >= cut)
+            /\ stack' = Append(stack, [k |-> "leaf", ty |-> ty, limit |-> 0, d |-> LeafData(nleaf, len, high), cut |-> cut,
+                                       cl |-> ChunkLens(ty, len, cut)])
      ELSE \E ty \in SinkLeafTypes \cap LeafTypes, n \in LeafLens, pre \in {0, 1} :
             /\ (ty \in {"slice", "uninit"} => pre = 0)
             /\ stack' = Append(stack, [k |-> "leaf", ty |-> ty, limit |-> 0, fixed |-> ty \in {"slice", "uninit"},
@@ -88,7 +100,7 @@ LimPaths(t) ==
     [] OTHER -> {<<0>> \o p : p \in LimPaths(t.t)}
 
 OpRec(op, m, n, path, d, v, val, src) == [op |-> op, m |-> m, n |-> n, path |-> path, d |-> d, v |-> v, val |-> val, src |-> src]
-NoSrc == [k |-> "leaf", ty |-> "slice", limit |-> 0, d |-> <<>>, cut |-> 0]
+NoSrc == [k |-> "leaf", ty |-> "slice", limit |-> 0, d |-> <<>>, cut |-> 0, cl |-> <<0>>]
 V16s == {[i \in 1..16 |-> IF i = 16 THEN 1 ELSE 0],                       \* 1
          [i \in 1..16 |-> 255],                                          \* -1
          [i \in 1..16 |-> i],                                            \* 0x0102...10
@@ -121,11 +133,11 @@ BufOp ==
         /\ ops' = Append(ops, OpRec("into_iter", "", 0, <<>>, <<>>, <<>>, 0, NoSrc)) /\ tree' = Consume(tree, len)
   /\ UNCHANGED <<stack, phase, tree0, nleaf>>
 
-SrcTrees == {[k |-> "leaf", ty |-> "slice", limit |-> 0, d |-> <<201, 202, 203>>, cut |-> 0],
-             [k |-> "leaf", ty |-> "chunked", limit |-> 0, d |-> <<201, 202, 203, 204>>, cut |-> 2],
+SrcTrees == {[k |-> "leaf", ty |-> "slice", limit |-> 0, d |-> <<201, 202, 203>>, cut |-> 0, cl |-> <<3>>],
+             [k |-> "leaf", ty |-> "chunked", limit |-> 0, d |-> <<201, 202, 203, 204>>, cut |-> 2, cl |-> <<0, 2, 2, 0>>],
              [k |-> "chain", limit |-> 0,
-              a |-> [k |-> "leaf", ty |-> "bytes", limit |-> 0, d |-> <<201>>, cut |-> 0],
-              b |-> [k |-> "leaf", ty |-> "deque", limit |-> 0, d |-> <<202, 203>>, cut |-> 1]]}
+              a |-> [k |-> "leaf", ty |-> "bytes", limit |-> 0, d |-> <<201>>, cut |-> 0, cl |-> <<1>>],
+              b |-> [k |-> "leaf", ty |-> "deque", limit |-> 0, d |-> <<202, 203>>, cut |-> 1, cl |-> <<1, 1>>]]}
 
 MutOp ==
   /\ phase = "ops" /\ Len(ops) < MaxOps /\ Side = "mut" /\ tree.k # "gone"
